@@ -1,11 +1,6 @@
 #!/bin/bash
 # bin/try_seeded_wt.sh <worktree-with-change-applied> <Cxx> [tier]
-# Run a check against a scratch worktree instead of /repo (VERIF_REPO), leaving /repo and the evidence file untouched.
+# Run a check against a scratch worktree instead of /repo (VERIF_REPO), leaving /repo and /verif/evidence untouched.
 set -u
 WT=$1; PROP=$2; TIER=${3:-quick}
-EV=/verif/evidence/$PROP.json
-[ -f "$EV" ] && cp "$EV" "$EV.keep"
-VERIF_REPO=$WT /verif/bin/check $PROP $TIER
-rc=$?
-[ -f "$EV.keep" ] && mv "$EV.keep" "$EV"
-exit $rc
+VERIF_REPO=$WT VERIF_EVIDENCE_DIR=/tmp/verif-scratch-evidence /verif/bin/check $PROP $TIER
